@@ -914,6 +914,8 @@ func gen(seed uint64, tier string) {
 	} {
 		fmt.Fprintf(out, "dec x%s\n", hex.EncodeToString([]byte(s)))
 	}
+	// round h: unsupported dynamic types that are near misses of the supported ones (own stream: earlier lines unchanged)
+	genUns(out, vproto.NewRng(seed^0xC06AA), tier)
 }
 
 // ---- impl
@@ -1307,6 +1309,8 @@ func impl() {
 				res = b.String()
 			case "hist":
 				res = implHist(p)
+			case "uns":
+				res = implUns(p)
 			case "emsg":
 				g := p.Geom()
 				_, err := geojson.Encode(g)
